@@ -59,3 +59,61 @@ def check_c15_api(rep, n):
     sc = [(f"c15-{p}-{s}", p, *GC.c15_script(s, p)) for i, s in enumerate(seeds(n, 15))
           for p in (("at4",) if i % 2 == 0 else ("at5",))]
     run_generated(rep, "shutdown() at chosen instants of the client's life, k loop iterations, long idle, send, optional re-init", sc)
+
+
+def check_c10(rep):
+    import itertools
+    q = rep.tier == "quick"
+    sc = []
+    # exhaustive cross product of the documented power x mode x fan x flags codes, 36 per script
+    for proto in ("at4", "at5"):
+        if proto == "at4":
+            combos = list(itertools.product([0, 1], GC.AT4_MODES, range(7), range(4)))
+        else:
+            combos = list(itertools.product(GC.AT5_POWERS, GC.AT4_MODES, GC.AT5_FANS, range(16)))
+        random.Random(lib.seed()).shuffle(combos)
+        for i in range(0, len(combos), 36):
+            sd = lib.seed() * 7 + i
+            sc.append((f"c10x-{proto}-{i}", proto, *GC.c10_script(sd, proto, combos=list(combos[i:i + 36]))))
+    sc += [(f"c10-{p}-{s}", p, *GC.c10_script(s, p)) for i, s in enumerate(seeds(300 if q else 6000, 10))
+           for p in (("at4",) if i % 2 == 0 else ("at5",))]
+    run_generated(rep, "status/timer/error/version histories with a snapshot after every frame; full cross product of documented AC codes", sc)
+    rep.exhaustive = True
+    rep.assumptions += API_ASSUME
+
+
+def check_c12(rep):
+    q = rep.tier == "quick"
+    sc = [(f"c12-{p}-{s}", p, *GC.c10_script(s, p, subscribers=True, raising=(i % 3 == 0))) for i, s in enumerate(seeds(500 if q else 10000, 12))
+          for p in (("at4",) if i % 2 == 0 else ("at5",))]
+    run_generated(rep, "histories with subscribe / unsubscribe / double-subscribe placements, raising subscribers, unchanged repeats", sc)
+    rep.assumptions += API_ASSUME
+
+
+def _c11_scripts(q, salt):
+    sc = []
+    # all 2^5 mode bitmaps x sampled fan bitmaps (quick) / all fan bitmaps (thorough)
+    rng = random.Random(lib.seed() + salt)
+    for proto in ("at4", "at5"):
+        nf = 128 if proto == "at4" else 256
+        fans = list(range(nf)) if not q else rng.sample(range(nf), 6)
+        for modes in range(32):
+            for f in (fans if not q else rng.sample(fans, 2)):
+                sd = rng.randrange(1 << 30)
+                sc.append((f"c11-{proto}-{modes}-{f}-{sd}", proto, *GC.c11_script(sd, proto, bitmap=(modes, f))))
+    sc += [(f"c11r-{p}-{s}", p, *GC.c11_script(s, p)) for i, s in enumerate(seeds(150 if q else 4000, salt))
+           for p in (("at4",) if i % 2 == 0 else ("at5",))]
+    return sc
+
+
+def check_c11(rep):
+    q = rep.tier == "quick"
+    run_generated(rep, "public control calls over ability bitmaps x enum arguments x 0.05 degC grid x damper -5..105 x timers", _c11_scripts(q, 11))
+    rep.assumptions += API_ASSUME
+
+
+def check_c04(rep):
+    q = rep.tier == "quick"
+    run_generated(rep, "public control calls: transmitted frame read by the vendor-derived reference reading", _c11_scripts(q, 4),
+                  also=("Addressing", "GarbledFrame"))
+    rep.assumptions += API_ASSUME
